@@ -120,7 +120,7 @@ def block_traces(g, out, ids):
                 break
             sh.apply_block(ob)
             if si >= npre:
-                res.append((dict(sh.store), {i: (rc[5] if len(rc) > 5 else None) for i, rc in enumerate(ob.get("receipts") or [])},
+                res.append((dict(sh.store), {i: ("FEE" if rc[1] == "fee_insufficient" else (rc[5] if len(rc) > 5 else None)) for i, rc in enumerate(ob.get("receipts") or [])},
                             [rc[0] == 0 for rc in (ob.get("receipts") or [])]))
         elif st["op"] == "restart":
             res.append((dict(sh.store), {}, []))
@@ -232,7 +232,9 @@ def build_rows(g, out, flagsets, ids, ref=None):
                     if k in rev:
                         meta.append((mv(so.get(rev[k])), mv(sr.get(rev[k]))))
                 for j, i in enumerate(keep):
-                    if X.body_reads(ops[i]["body"]):
+                    # a read that could not pay its fee says nothing about the state (removing FAILED transactions
+                    # changes what their senders can afford)
+                    if X.body_reads(ops[i]["body"]) and ro.get(i) != "FEE" and rr.get(j) != "FEE":
                         meta.append((mv(ro.get(i)), mv(rr.get(j))))
         xrow, info = run.xcase(ob, ops, flagsets, genesis, price, opaque=False, warm=warm, meta=meta)
         run.sh.apply_block(ob)
